@@ -42,6 +42,7 @@ Theorem C02_step_machine_refines_generic_walk :
   forall ras root fuel,
   check_of (pte_format pf) = Some (af_check af) ->
   pte_size (pte_format pf) = Some (af_ptesz af) ->
+  (length (fieldsz pf) <= pf_max_fields (pte_format pf))%nat ->
   wf_form (af_check af) (fieldsz pf) -> va < 2^64 ->
   (length (fieldsz pf) <= fuel)%nat ->
   observe (addrxlat_walk readmem {| m_kind := KPgt ras root mask pf; m_target := tgt |} fuel (init_step va))
@@ -286,3 +287,14 @@ Example C02_nonvacuous_lpa_s390x :
      {| m_kind := KPgt KPHYSADDR 0 0 {| pte_format := PTE_S390X; fieldsz := [12;8;11;11] |};
         m_target := KPHYSADDR |} 4 (init_step (2^31 + 0x600 * 2^20))) = (NOTPRESENT, None).
 Proof. vm_compute. repeat split. Qed.
+
+(** * Paging forms with more fields than the PTE format has levels are rejected
+    up front (the fix "reject paging forms with more fields than the PTE format
+    has levels"): the per-format theorems above are about the architectures'
+    own forms, which all fit *)
+Theorem C02_too_many_fields_rejected : forall readmem ras root mask pf tgt fuel va,
+  (pf_max_fields (pte_format pf) < length (fieldsz pf))%nat ->
+  observe (addrxlat_walk readmem {| m_kind := KPgt ras root mask pf; m_target := tgt |} fuel (init_step va))
+  = (NOTIMPL, None).
+Proof. exact too_many_fields_rejected. Qed.
+Print Assumptions C02_too_many_fields_rejected.
